@@ -10,28 +10,46 @@ MANIFEST = dict(
     text=("Lean theorems, for all trees (own inductive tree type, every string class incl. arbitrary subclasses), all receivers, "
           "all separator/strip/types arguments and every interesting_string_types value: the code-mirror of Tag._all_strings (worklist "
           "walk over descendants + exact-class filter + strip) equals the recursive evaluator (allStrings_eq_spec, walk_is_preorder, "
-          "allStrings_str_eq_spec for string receivers); default selection = NavigableString+CData for ordinary elements, own class "
-          "for string containers, over the generated MAIN_CONTENT_STRING_TYPES / DEFAULT_STRING_CONTAINERS tables (default_types_*, "
-          "main_types_table, containers_table); special strings never seen from ordinary elements whatever the nesting "
-          "(outside_never_sees_special, outside_mem, only_special_yields_nothing, parsed_container_text_invisible with the mirror of "
-          "string_container); explicit types select by exact class (types_arg_exact/one/none/mem); get_text = intercalate "
-          "(getText_join, getText_length, text_concat); strip trims by the generated isspace table and drops empties "
-          "(strip_spec, strip_drops_empties(_str), strip_fixed_point); .string = the string at the end of a chain of only children "
-          "(string_sole_chain, sole_chain_unique, string_none_iff). Tie: differential runs of the real code on parsed (html.parser) and "
-          "API-built/edited trees with every string class under every kind of parent, every element and string as receiver, the argument "
-          "grid, custom string_containers and hand-set interesting_string_types; against the Lean mirror, the Lean evaluator and an "
-          "independent Python evaluator over .contents (object identity of the yielded strings included)."),
+          "allStrings_filter_of_document_order, allStrings_str_eq_spec for string receivers); default selection = NavigableString+CData "
+          "for ordinary elements, own class for string containers, over the generated MAIN_CONTENT_STRING_TYPES / DEFAULT_STRING_CONTAINERS "
+          "tables (default_types_*, main_types_table, containers_table, whitespace_table); special strings never seen from ordinary "
+          "elements whatever the nesting (outside_never_sees_special, outside_mem, only_special_yields_nothing); explicit types select "
+          "by exact class (types_arg_exact/one/none/mem/str); get_text = intercalate (getText_join, getText_length, text_concat); strip "
+          "trims by the generated isspace table and drops empties, existence and uniqueness of the trim (strip_spec, strip_unique_trim, "
+          "strip_drops_empties(_str), strip_fixed_point), only the truth value of strip matters (strip_truthiness); .string = the string "
+          "at the end of a chain of only children (string_sole_chain, sole_chain_unique, string_none_iff). ON THE POINTER HEAP "
+          "(Model/TextHeap.lean: _all_strings/get_text over the next_element chase of Tag.descendants, .string as the loop over contents): "
+          "on every consistent heap they never fail and equal the tree-level mirror on the tree read off the children lists "
+          "(heap_allStrings_eq_tree/eq_spec/document_order, heap_getText, heap_string_sole_chain, heap_string_eq_tree, toNode_is_the_tree), "
+          "and by C01's theorems every parsed document edited by any finite history of the fourteen editing calls is such a heap "
+          "(parsed_then_edited_text, built_then_edited_text) - the pre-order of the chain is derived, not assumed. CONFIGURATION: "
+          "TreeBuilder's string_containers option (omitted / dict incl. empty / None), Tag.__init__ with and without a builder, new_tag, "
+          "Tag.copy_self, BeautifulSoup.copy_self, copies of trees, nested containers (config_option, tag_init_cases, "
+          "empty_config_all_ordinary, builderless_tag_counts_main, copy_same_text, soup_copy_root_from_builder, "
+          "nested_containers_innermost, no_container_open, string_container_rule), and the parser: C03's builder machine instantiated "
+          "with a string_containers table gives pending text the class of the innermost open container in every state "
+          "(parsed_text_class), hence the contents of the default containers are invisible from ordinary elements and visible from "
+          "the container (container_contents_invisible, parsed_container_text_invisible). Tie: differential runs of the real code on "
+          "parsed (html.parser, malformed markup included) and API-built/edited trees with every string class under every kind of "
+          "parent, every element and string as receiver, the argument grid (strip as bool/int/None/str, types as class/None/tuple/list/"
+          "set/frozenset/dict/one-shot iterator), custom string_containers and hand-set interesting_string_types, copies, "
+          "ask-edit-ask sequences, real edit histories against the pointer-heap model; against the Lean mirrors, the Lean evaluator "
+          "and an independent Python evaluator over .contents (object identity of the yielded strings included)."),
     design="7/C13",
-    note=("The tree model is a plain inductive type: that the next_element chain below an element is its pre-order is C01/C02's "
-          "invariant; edits here are single-argument API calls only (C02's multi-argument defect is out of scope). types=() is the "
-          "default sentinel itself (CPython's empty tuple is a singleton) and is treated as 'default'. NavigableString._all_strings "
-          "yields nothing for an empty string even without strip (modelled; Tag._all_strings yields empty strings). "
-          "element_classes={NavigableString: Sub} hides all parsed text from ordinary elements (recorded quirk, outside the quantifier; "
-          "only string_container() itself is compared with the model under element_classes)."),
-    technique="Lean 4 refinement proof (code-mirror = recursive evaluator, laws of the evaluator, generated tables) + differential correspondence + direct Python oracle",
+    note=("Edits in the tree streams are single-argument API calls; the heap stream uses heapsim's histories (all fourteen calls, "
+          "multi-argument included). types=() is the default sentinel itself (CPython's empty tuple is a singleton) and is read as "
+          "'default'. Recorded behaviours, modelled but outside the property's quantifier: NavigableString._all_strings yields "
+          "nothing for an empty string even without strip; a string receiver's default selection is NavigableString+CData whatever "
+          "its parent; a one-shot iterator passed as types is consumed by the `in` test (iter_types_sublist; the check accepts the "
+          "tuple reading as well); string_containers=None makes Tag construction raise TypeError; copying a BeautifulSoup object "
+          "re-derives the root's interesting_string_types from the builder; element_classes={NavigableString: Sub} hides all parsed "
+          "text from ordinary elements (only string_container() itself is compared with the model under element_classes). The heap "
+          "model carries string classes and interesting_string_types as a labelling beside Model/Heap.lean's heap (no editing call "
+          "writes them); library-allocated strings are NavigableString (Comment for a preformatted `.string=`)."),
+    technique="Lean 4 refinement proofs (code-mirror = recursive evaluator on trees; pointer-heap mirror = tree mirror via C01's invariant; C03's parser machine instantiated) + generated tables + differential correspondence + direct Python oracle",
 )
 
-# numbering of the classes the model knows by name = position in Gen.knownStringClasses (translate/parts_c13.py KNOWN)
+# numbering of the classes the model knows by name = position in Gen.c13KnownStringClasses (translate/parts_c13.py KNOWN)
 KNOWN = ["NavigableString", "PreformattedString", "CData", "ProcessingInstruction", "XMLProcessingInstruction",
          "Comment", "Declaration", "Doctype", "Stylesheet", "Script", "TemplateString", "RubyTextString",
          "RubyParenthesisString"]
@@ -393,6 +411,12 @@ def apply_op(soup, sc, op):
     if kind == "smooth":
         soup.smooth()
         return True
+    if kind == "rename":
+        t = node(op[1])
+        if not is_tag(t) or t is soup:
+            return False
+        t.name = op[2]      # what the element counts as text was fixed when it was constructed: unchanged
+        return True
     raise ValueError(f"unknown op {op!r}")
 
 
@@ -441,8 +465,10 @@ def gen_op(r, soup, label):
         return ("wrap", ni, r.choice(tagnames))
     if k < 0.99:
         return ("unwrap", ti)
-    if k < 0.995:
+    if k < 0.992:
         return ("clear", ti)
+    if k < 0.997:
+        return ("rename", ti, r.choice(tagnames))
     return ("smooth",)
 
 
@@ -454,9 +480,63 @@ def build(recipe):
     for t in all_nodes(soup):
         if is_tag(t):
             set_exp(t, expected_interesting(sc, t.name))
-    for op in recipe.get("ops", []):
+    warm = recipe.get("warm")
+    for i, op in enumerate(recipe.get("ops", [])):
+        if warm is not None and i == warm:
+            warm_up(soup)
         apply_op(soup, sc, tuple(op))
+    post = recipe.get("post")
+    if post:
+        soup = apply_post(soup, post, sc)
     return soup, sc
+
+
+def copied_soup_config_failures(cl, sc):
+    """a copy of a BeautifulSoup object shares its builder: new_tag() on the copy follows the same string_containers"""
+    c = E()["cls"]
+    bad = []
+    for nm in sorted(set(list(sc) + list(PROP_CONTAINERS) + ["p", "b"])):
+        got = int_tok_of_value(cl.new_tag(nm).interesting_string_types)
+        want = int_tok_of_value({c[n] for n in expected_interesting(sc, nm)[1]})
+        if got != want:
+            bad.append((nm, got, want))
+    return bad
+
+
+def warm_up(soup):
+    """every observable on every node BEFORE further edits: whatever an implementation remembers from these calls must not
+    show in the answers after the edits"""
+    for n in all_nodes(soup):
+        try:
+            n.text, list(n.strings), list(n.stripped_strings), n.string
+            n.get_text("|"), n.get_text("|", True), n.get_text("", False, None), n.get_text(" ", True, None)
+        except Exception:
+            pass
+
+
+def apply_post(soup, post, sc):
+    """a copy of the whole document or of one element becomes the tree under test; the copy must keep the configuration
+    (interesting_string_types of every tag, class of every string) of the original, element by element"""
+    kind = post[0]
+    if kind == "copy_soup":
+        cl = copy.copy(soup)
+        src = soup
+    elif kind == "deepcopy_soup":
+        cl = copy.deepcopy(soup)
+        src = soup
+    else:
+        src = soup
+        for i in post[1]:
+            src = src.contents[i]
+        cl = copy.deepcopy(src) if kind == "deepcopy" else copy.copy(src)
+    for a, b in zip(all_nodes(src), all_nodes(cl)):
+        if is_tag(a):
+            set_exp(b, get_exp(a))
+    if kind in ("copy_soup", "deepcopy_soup"):
+        # BeautifulSoup.copy_self() makes a new BeautifulSoup object from the same builder: the root's own
+        # interesting_string_types is the builder's again (a value set by hand on the original root is not carried over)
+        set_exp(cl, expected_interesting(sc, cl.name))
+    return cl
 
 
 # --------------------------------------------------------------------------------------
@@ -542,11 +622,15 @@ def types_value(tspec):
         return None
     if tspec[0] == "one":
         return tspec[1]
-    ctor = {"set": set, "tuple": tuple, "list": list, "frozenset": frozenset}[tspec[1]]
+    if tspec[0] == "iter":
+        return iter(list(tspec[2])) if tspec[1] == "iter" else (x for x in list(tspec[2]))
+    ctor = {"set": set, "tuple": tuple, "list": list, "frozenset": frozenset, "dict": dict.fromkeys}[tspec[1]]
     return ctor(tspec[2])
 
 
 def types_tok(tspec):
+    if tspec[0] == "iter":
+        return "i" + (".".join(str(cls_code(k)) for k in tspec[2]) if tspec[2] else "-")
     if tspec[0] in ("d", "D"):
         return "d"
     if tspec[0] == "n":
@@ -559,6 +643,8 @@ def types_tok(tspec):
 
 
 def types_desc(tspec):
+    if tspec[0] == "iter":
+        return ["iter", tspec[1], [k.__name__ for k in tspec[2]]]
     if tspec[0] == "one":
         return ["one", tspec[1].__name__]
     if tspec[0] == "many":
@@ -571,8 +657,8 @@ def types_from_desc(d):
     look = lambda n: c.get(n, E()["el"].Tag)
     if d[0] == "one":
         return ("one", look(d[1]))
-    if d[0] == "many":
-        return ("many", d[1], [look(n) for n in d[2]])
+    if d[0] in ("many", "iter"):
+        return (d[0], d[1], [look(n) for n in d[2]])
     return (d[0],)
 
 
@@ -583,6 +669,49 @@ def norm_tspec(tspec):
     if tspec[0] == "D":
         return ("d",)
     return tspec
+
+
+STRIPS = [False, True, False, True, 0, 1, None, "", "x", 2, -1]
+
+
+def strip_tok(v) -> str:
+    if v is True:
+        return "1"
+    if v is False:
+        return "0"
+    if v is None:
+        return "n"
+    if isinstance(v, int):
+        return f"i{v}"
+    return "s" + arg_tok(v)
+
+
+def o_iter_strings(receiver, strip, classes):
+    """one-shot iterator as `types` (recorded behaviour, not the documented tuple): `in` consumes the iterator"""
+    left = list(classes)
+
+    def isin(k):
+        while left:
+            x = left.pop(0)
+            if x is k:
+                return True
+        return False
+    out = []
+    if is_tag(receiver):
+        for s in o_strings_below(receiver):
+            if not isin(type(s)):
+                continue
+            if strip:
+                t = o_isspace_strip(s)
+                if t:
+                    out.append((s, t))
+            else:
+                out.append((s, s))
+    elif isin(type(receiver)):
+        t = o_isspace_strip(receiver) if strip else receiver
+        if len(t) > 0:
+            out.append((receiver, t))
+    return out
 
 
 def rand_tspec(r, present):
@@ -598,14 +727,21 @@ def rand_tspec(r, present):
         return ("n",)
     if k < 0.6:
         return ("one", pick())
-    kind = r.choice(("tuple", "tuple", "list", "set", "frozenset"))
+    kind = r.choice(("tuple", "tuple", "list", "set", "frozenset", "dict"))
     m = r.choice((0, 1, 2, 2, 3, 4))
     cl = [pick() for _ in range(m)]
+    if k > 0.93:
+        return ("iter", r.choice(("iter", "gen")), cl)
     if r.random() < 0.05:
         cl.append(e["el"].Tag)
-    if kind in ("set", "frozenset"):
+    if kind in ("set", "frozenset", "dict"):
         cl = list(dict.fromkeys(cl))
     return ("many", kind, cl)
+
+
+class IterAsTuple(Exception):
+    """a one-shot iterator passed as `types` was honoured like a tuple: the documented meaning, not today's behaviour
+    (which consumes the iterator) — either is accepted; such a query is not compared with the model"""
 
 
 def run_query(receiver, q):
@@ -640,7 +776,13 @@ def run_query(receiver, q):
         elif tspec[0] != "d":
             kw["types"] = types_value(tspec)
         got = list(receiver._all_strings(strip, **kw))
-        want = o_all_strings(receiver, strip, norm_tspec(tspec))
+        if tspec[0] == "iter":
+            want = o_iter_strings(receiver, bool(strip), tspec[2])
+            alt = o_all_strings(receiver, bool(strip), ("many", "tuple", tspec[2]))
+            if show_pieces(got) != show_pieces([w[1] for w in want]) and show_pieces(got) == show_pieces([w[1] for w in alt]):
+                raise IterAsTuple()
+        else:
+            want = o_all_strings(receiver, bool(strip), norm_tspec(tspec))
         if not strip:
             ident = len(got) == len(want) and all(a is b[0] for a, b in zip(got, want))
         return show_pieces(got), show_pieces([w[1] for w in want]), ident
@@ -657,7 +799,14 @@ def run_query(receiver, q):
             got = receiver.getText(sep, strip, **kw)
         else:
             got = receiver.get_text(sep, strip, **kw)
-        want = sep.join(str.__str__(w[1]) for w in o_all_strings(receiver, strip, norm_tspec(tspec)))
+        if tspec[0] == "iter":
+            pieces_ = o_iter_strings(receiver, bool(strip), tspec[2])
+            alt = sep.join(str.__str__(w[1]) for w in o_all_strings(receiver, bool(strip), ("many", "tuple", tspec[2])))
+            if got != sep.join(str.__str__(w[1]) for w in pieces_) and got == alt:
+                raise IterAsTuple()
+        else:
+            pieces_ = o_all_strings(receiver, bool(strip), norm_tspec(tspec))
+        want = sep.join(str.__str__(w[1]) for w in pieces_)
         return ptok(got), ptok(want), True
     raise ValueError(q)
 
@@ -668,8 +817,8 @@ def query_tok(path, q):
     if op in ("ST", "SS", "TX", "SP"):
         return f"{p}/{op}"
     if op == "A":
-        return f"{p}/A/{1 if q[1] else 0}/{types_tok(norm_tspec(q[2]))}"
-    return f"{p}/G/{1 if q[1] else 0}/{types_tok(norm_tspec(q[2]))}/{arg_tok(q[3])}"
+        return f"{p}/A/{strip_tok(q[1])}/{types_tok(norm_tspec(q[2]))}"
+    return f"{p}/G/{strip_tok(q[1])}/{types_tok(norm_tspec(q[2]))}/{arg_tok(q[3])}"
 
 
 def query_desc(q):
@@ -796,6 +945,9 @@ def check_tree(ctx, batch, recipe, soup, sc, stream, plan, tree_id):
         for q in plan(n, present):
             try:
                 real, want, ident = run_query(n, q)
+            except IterAsTuple:
+                ctx.count("iter-types:honoured-like-a-tuple")
+                continue
             except RecursionError:
                 raise
             except Exception as ex:  # the real code (or the oracle) raised: report as a violation of the property
@@ -804,12 +956,12 @@ def check_tree(ctx, batch, recipe, soup, sc, stream, plan, tree_id):
             ctx.count("q:" + q[0])
             if q[0] in ("A", "G"):
                 ctx.count("types:" + (q[2][0] if q[2][0] != "many" else "many-" + q[2][1] + ("-empty" if not q[2][2] else "")))
-                ctx.count(f"strip:{q[1]}")
+                ctx.count(f"strip:{q[1]!r}")
             if q[0] == "SP":
                 ctx.count("string:" + ("none" if real == "none" else ("self" if not is_tag(n) else "found")))
                 nt = is_tag(n) and real != "none" and bool(n.contents) and is_tag(n.contents[0])
             else:
-                sel = o_selector(n, norm_tspec(q[2]) if q[0] in ("A", "G") else ("d",))
+                sel = o_selector(n, (("many", "list", q[2][2]) if q[2][0] == "iter" else norm_tspec(q[2])) if q[0] in ("A", "G") else ("d",))
                 inc = sum(1 for s in below if sel(type(s)))
                 nt = is_tag(n) and inc >= 1 and inc < len(below)
                 ctx.count("result:" + ("empty" if inc == 0 else "all" if inc == len(below) else "some"))
@@ -845,9 +997,9 @@ def random_plan(r, quick_k):
     def plan(n, present):
         qs = [("ST",), ("SS",), ("TX",), ("SP",)]
         for _ in range(quick_k):
-            qs.append(("G", r.random() < 0.5, rand_tspec(r, present), r.choice(SEPS), r.choice(("pos", "pos", "kw", "alias"))))
+            qs.append(("G", r.choice(STRIPS), rand_tspec(r, present), r.choice(SEPS), r.choice(("pos", "pos", "kw", "alias"))))
         for _ in range(2):
-            qs.append(("A", r.random() < 0.5, rand_tspec(r, present)))
+            qs.append(("A", r.choice(STRIPS), rand_tspec(r, present)))
         return qs
     return plan
 
@@ -976,6 +1128,34 @@ def stream_random(ctx, batch, n_trees):
             ctx.count("tree:skipped-large")
             continue
         check_tree(ctx, batch, recipe, soup, sc, "random-trees", random_plan(r, 4), ti)
+        if r.random() < 0.3:
+            # ask, edit, ask again: the answers after the edits must not remember the answers before them
+            recipe3 = {"markup": recipe["markup"], "config": cfg, "ops": list(recipe["ops"]), "warm": len(recipe["ops"])}
+            soup3, sc3 = build(dict(recipe3, warm=None))
+            warm_up(soup3)
+            for k in range(r.choice((1, 2, 3))):
+                op = gen_op(r, soup3, 3000 + k)
+                if apply_op(soup3, sc3, op):
+                    recipe3["ops"].append(list(op))
+            if len(recipe3["ops"]) > recipe3["warm"] and len(all_nodes(soup3)) <= 120:
+                ctx.count("tree:asked-edited-asked")
+                check_tree(ctx, batch, recipe3, soup3, sc3, "ask-edit-ask", random_plan(r, 2), 7_000_000 + ti)
+        if r.random() < 0.2:
+            tags = [p for n, p in paths(soup) if is_tag(n) and p]
+            k = r.random()
+            post = ["copy_soup"] if k < 0.3 else ["deepcopy_soup"] if k < 0.45 else \
+                ([r.choice(("deepcopy", "copy")), list(r.choice(tags))] if tags else ["copy_soup"])
+            recipe2 = dict(recipe, post=post)
+            cl = apply_post(soup, post, sc)
+            ctx.count("tree:copy-" + post[0])
+            check_tree(ctx, batch, recipe2, cl, sc, "copies", random_plan(r, 2), 6_000_000 + ti)
+            if post[0] in ("copy_soup", "deepcopy_soup"):
+                bad = copied_soup_config_failures(cl, sc)
+                ctx.case(None)
+                if bad and sum(1 for v in ctx.violations if v["stream"] == "copies-config") < 4:
+                    ctx.violation("a copied BeautifulSoup object does not keep the string_containers configuration (new_tag on the copy)",
+                                  case={"op": "copy-config", "recipe": recipe2}, expected=[b[2] for b in bad], observed=[b[:2] for b in bad],
+                                  stream="copies-config")
 
 
 def stream_positions(ctx, batch):
@@ -1087,6 +1267,177 @@ def stream_string_container(ctx):
                               case=cs | {"line": l}, observed=a, model=b, stream="interesting-correspondence", no_failing_input=True)
 
 
+def sc_tok(d):
+    if d is None:
+        return None
+    return ";".join(f"{arg_tok(k)}:{cls_code(v)}" for k, v in d.items()) or "-"
+
+
+def int_tok_of_value(val):
+    """tag.interesting_string_types (live attribute) -> canonical token (collections as sorted sets)"""
+    if val is None:
+        return "N"
+    if isinstance(val, type):
+        return f"o{cls_code(val)}"
+    codes = sorted(cls_code(k) for k in val)
+    return "m" + (".".join(map(str, codes)) if codes else "-")
+
+
+def canon_int_reply(rep: str) -> str:
+    if rep.startswith("ok m") and rep != "ok m-":
+        return "ok m" + ".".join(sorted(rep[4:].split("."), key=int))
+    return rep
+
+
+def stream_config(ctx):
+    """the builder's string_containers option, Tag.__init__ with/without a builder, new_tag, copy_self, nested containers"""
+    e = E()
+    c = e["cls"]
+    from bs4.builder import TreeBuilder, HTMLParserTreeBuilder
+    Tag = e["el"].Tag
+    drv = Driver()
+    lines, real, cases = [], [], []
+    custom = [{}, {"b": c["SubNS"]}, {"script": c["NavigableString"], "p": c["Comment"]},
+              dict(e["live_containers"]) | {"i": c["CData"]}]
+    params = [("omit", None), ("N", None), ("o5", c["Comment"]), ("m5", {c["Comment"]}), ("m-", ()), ("m0.9", [c["NavigableString"], c["Script"]])]
+    names = sorted(set(ORD_TAGS + list(PROP_CONTAINERS) + list(e["live_containers"]) + ["[document]", "noscript", "SCRIPT", "Script",
+                                                                                          "STYLE", "\u017fcript", "scr\u0131pt", ""]))
+    for bcls, prop_dflt in ((HTMLParserTreeBuilder, PROP_CONTAINERS), (TreeBuilder, {})):
+        live_dflt = bcls.DEFAULT_STRING_CONTAINERS
+        for argname, arg in [("U", "omit"), ("N", None)] + [("D", d) for d in custom]:
+            try:
+                b = bcls() if arg == "omit" else bcls(string_containers=arg)
+            except Exception as ex:
+                ctx.violation("constructing a builder with this string_containers value raises", case={"op": "config", "builder": bcls.__name__, "arg": argname},
+                              observed=repr(ex), stream="config")
+                continue
+            got_sc = b.string_containers
+            argtok = "U" if arg == "omit" else "N" if arg is None else "D:" + sc_tok(arg)
+            lines.append(f"c13 scarg {sc_tok(live_dflt)} {argtok}")
+            real.append("none" if got_sc is None else "some " + sc_tok(got_sc))
+            cases.append({"op": "config", "what": "builder-option", "builder": bcls.__name__, "arg": argname})
+            ctx.case(("CFG", bcls.__name__, argtok))
+            # property-direct expectation of the table in force
+            if arg == "omit":
+                want_sc = {k: c[v] for k, v in prop_dflt.items()}
+                if got_sc != want_sc:
+                    ctx.violation("the default string_containers of this builder class are not the documented ones",
+                                  case=cases[-1], expected=sorted(prop_dflt.items()), observed=sorted((k, v.__name__) for k, v in got_sc.items()), stream="config")
+            elif arg is not None and got_sc != arg:
+                ctx.violation("a string_containers dictionary passed to the builder is not used as given", case=cases[-1],
+                              expected=sc_tok(arg), observed=sc_tok(got_sc), stream="config")
+            btok = "BN" if got_sc is None else "B:" + sc_tok(got_sc)
+            eff = None if got_sc is None else {k: v.__name__ for k, v in got_sc.items()}
+            soup = None
+            if bcls is HTMLParserTreeBuilder:
+                try:
+                    soup = e["BeautifulSoup"]("", builder=b)
+                    if got_sc is None:
+                        ctx.notes.append("string_containers=None did not raise at BeautifulSoup construction")
+                except TypeError:
+                    ctx.count("config:soup-TypeError")
+                    soup = None
+            for nm in names:
+                for ptok, pval in params:
+                    for mode in ("builder", "bare"):
+                        kw = {} if ptok == "omit" else {"interesting_string_types": pval}
+                        try:
+                            t = Tag(builder=b, name=nm, **kw) if mode == "builder" else Tag(name=nm, **kw)
+                            got = "ok " + int_tok_of_value(t.interesting_string_types)
+                        except TypeError:
+                            got = "TypeError"
+                        lines.append(f"c13 taginit {btok if mode == 'builder' else 'N'} {arg_tok(nm)} {'N' if ptok == 'omit' else ptok}")
+                        real.append(got)
+                        cases.append({"op": "config", "what": "Tag()", "builder": bcls.__name__ if mode == "builder" else None, "arg": argname,
+                                      "name": nm, "param": ptok})
+                        ctx.case(("TAG", bcls.__name__, argtok, nm, ptok, mode))
+                        ctx.count("config:Tag-" + mode)
+                        # property: with a builder whose table is a dict, the table decides; without one, the argument is kept
+                        if mode == "builder" and eff is not None:
+                            want = "ok " + int_tok_of_value({c[n] for n in expected_interesting(eff, nm)[1]})
+                        elif mode == "bare":
+                            want = "ok " + int_tok_of_value(pval)
+                        else:
+                            want = None
+                        if want is not None and got != want:
+                            if sum(1 for v in ctx.violations if v["stream"] == "config") < 6:
+                                ctx.violation("a new Tag's interesting_string_types is not what its builder's string_containers (or, without a "
+                                              "builder, the argument) says", case=cases[-1], expected=want, observed=got, stream="config")
+                        # copy_self keeps it
+                        if got.startswith("ok"):
+                            cp = t.copy_self()
+                            gotc = "ok " + int_tok_of_value(cp.interesting_string_types)
+                            lines.append(f"c13 copyself {arg_tok(nm)} {got[3:]}")
+                            real.append(gotc)
+                            cases.append({"op": "config", "what": "copy_self", "name": nm, "of": got})
+                            ctx.case(None)
+                            if gotc != got and sum(1 for v in ctx.violations if v["stream"] == "config") < 6:
+                                ctx.violation("copy_self() does not keep interesting_string_types", case=cases[-1], expected=got, observed=gotc, stream="config")
+                if soup is not None:
+                    t = soup.new_tag(nm)
+                    got = "ok " + int_tok_of_value(t.interesting_string_types)
+                    lines.append(f"c13 newtag {btok} {arg_tok(nm)}")
+                    real.append(got)
+                    cases.append({"op": "config", "what": "new_tag", "arg": argname, "name": nm})
+                    ctx.case(("NEWTAG", argtok, nm))
+                    want = "ok " + int_tok_of_value({c[n] for n in expected_interesting(eff, nm)[1]})
+                    if got != want and sum(1 for v in ctx.violations if v["stream"] == "config") < 6:
+                        ctx.violation("new_tag()'s interesting_string_types is not what the builder's string_containers says", case=cases[-1],
+                                      expected=want, observed=got, stream="config")
+    rep = drv.ask(lines)
+    for l, a, b_, cs in zip(lines, real, rep, cases):
+        if a != canon_int_reply(b_):
+            ctx.corr_disagreements += 1
+            if not any(v["case"] == cs for v in ctx.violations) and sum(1 for v in ctx.violations if v["stream"] == "config-correspondence") < 6:
+                ctx.violation("Lean mirror of the configuration handling and implementation disagree", case=cs | {"line": l},
+                              observed=a, model=b_, stream="config-correspondence", no_failing_input=True)
+    ctx.count("config:requests", len(lines))
+
+
+def stream_nesting(ctx, n_docs):
+    """nested and re-opened string containers: <a><rt><template><b>x ... - the class of x is that of the innermost OPEN container"""
+    e = E()
+    c = e["cls"]
+    lines, real, cases = [], [], []
+    for di in range(n_docs):
+        r = ctx.rng("nesting", di)
+        cfg = r.choice(["default", "default", "default+", "b-sub", "empty"])
+        kwargs, sc = config_containers(cfg)
+        pool = ["b", "p", "i", "div", "template", "rt", "rp", "template", "rt"]
+        open_names = []
+        markup = ""
+        for _ in range(r.randint(1, 8)):
+            if open_names and r.random() < 0.3:
+                markup += f"</{open_names.pop()}>"
+            else:
+                nm = r.choice(pool)
+                open_names.append(nm)
+                markup += f"<{nm}>"
+        markup += f"x{di}"
+        soup = e["BeautifulSoup"](markup, "html.parser", **kwargs)
+        strs = [s for s in all_nodes(soup) if isinstance(s, e["el"].NavigableString) and str(s) == f"x{di}"]
+        got = type(strs[0]).__name__ if len(strs) == 1 else f"<{len(strs)} strings>"
+        inner = next((n for n in reversed(open_names) if n in sc), None)
+        want = sc[inner] if inner is not None else "NavigableString"
+        ctx.case(("NEST", markup, cfg) if sum(1 for n in open_names if n in sc) >= 2 else None)
+        ctx.count("nesting:open-containers-" + str(min(3, sum(1 for n in open_names if n in sc))))
+        case = {"op": "nesting", "markup": markup, "config": cfg, "open": open_names}
+        if got != want and sum(1 for v in ctx.violations if v["stream"] == "nesting") < 4:
+            ctx.violation("text inside nested string containers does not get the class of the innermost open one", case=case,
+                          expected=want, observed=got, stream="nesting")
+        live_sc = soup.builder.string_containers
+        lines.append(f"c13 cstack {sc_tok(live_sc)} {';'.join(arg_tok(n) for n in reversed(open_names)) or '-'}")
+        real.append((arg_tok(inner) if inner is not None else "N") + " " + (str(cls_code(c[got])) if got in c else got))
+        cases.append(case)
+    rep = Driver().ask(lines)
+    for l, a, b_, cs in zip(lines, real, rep, cases):
+        if a != b_:
+            ctx.corr_disagreements += 1
+            if not any(v["case"] == cs for v in ctx.violations) and sum(1 for v in ctx.violations if v["stream"] == "nesting-correspondence") < 4:
+                ctx.violation("Lean mirror of the container stack and implementation disagree", case=cs | {"line": l}, observed=a, model=b_,
+                              stream="nesting-correspondence", no_failing_input=True)
+
+
 def stream_strip(ctx):
     """str.strip() (what _all_strings calls) against the Lean strip over the generated table: every whitespace code
     point and its neighbours, in every position."""
@@ -1107,6 +1458,247 @@ def stream_strip(ctx):
             ctx.violation("Lean strip (generated isspace table) and str.strip disagree", case={"op": "strip", "line": l},
                           observed=a, model=b, stream="strip-table", no_failing_input=True)
     ctx.exhaustive_parts.append(f"strip: all {len(ws)} whitespace code points and their neighbours in 6 positions")
+
+
+# --------------------------------------------------------------------------------------
+# the pointer heap: real edit histories (harness/heapsim.py, shared with C01/C02) against Model/TextHeap.lean
+# --------------------------------------------------------------------------------------
+HEAP_STR = ["NavigableString", "NavigableString", "Script", "Stylesheet", "TemplateString", "RubyTextString",
+            "RubyParenthesisString", "SubNS", "SubScript"]
+HEAP_PRE = ["Comment", "Comment", "CData", "Doctype", "Declaration", "ProcessingInstruction", "XMLProcessingInstruction",
+            "PreformattedString", "SubComment", "SubCData"]
+
+
+def lab_tok(s) -> str:
+    """heapsim texts are '.'-terminated label numbers: "7.1001." <-> model value [7, 1001]"""
+    t = [x for x in str.__str__(s).split(".") if x != ""]
+    return ",".join(t) if t else "e"
+
+
+def make_heap_world(r):
+    """fresh API objects of every string class (kind s = plain, c = preformatted), tags with hand-set interesting types"""
+    from . import heapsim
+    e = E()
+    c = e["cls"]
+    n_soup, n_tag, n_str, n_pre = r.choice([1, 1, 2]), r.randint(3, 8), r.randint(2, 6), r.randint(1, 4)
+    kinds = "r" * n_soup + "t" * n_tag + "s" * n_str + "c" * n_pre
+    w = heapsim.World.__new__(heapsim.World)
+    w.call_forms, w.kinds, w.twin, w.twin_choices = {}, kinds, False, None
+    w.base = e["BeautifulSoup"]("", "html.parser")
+    w.objs, w.lab, w.keep, w.next_plain = {}, {}, [], 1000
+    classes, interesting = [], []
+    for i, k in enumerate(kinds):
+        if k in "rt":
+            o = e["BeautifulSoup"]("", "html.parser") if k == "r" else w.base.new_tag(f"t{i}")
+            spec = ("many", PROP_MAIN)
+            if k == "t" and r.random() < 0.35:
+                j = r.random()
+                names = e["names"]
+                if j < 0.15:
+                    spec = None
+                elif j < 0.4:
+                    spec = ("one", (r.choice(names),))
+                else:
+                    spec = ("many", tuple(r.sample(names, r.randint(0, 3))), r.choice(("set", "tuple", "list", "frozenset")))
+                o.interesting_string_types = interesting_value(spec)
+                spec = None if spec is None else (spec[0], tuple(spec[1]))
+            set_exp(o, spec)
+            classes.append("NavigableString")
+            interesting.append(spec)
+        else:
+            cn = r.choice(HEAP_STR if k == "s" else HEAP_PRE)
+            o = c[cn](f"{i}.")
+            classes.append(cn)
+            interesting.append(("many", PROP_MAIN))
+        w.register(o, i)
+    return w, kinds, classes, interesting
+
+
+def rebuild_heap_world(kinds, classes, interesting):
+    from . import heapsim
+    e = E()
+    c = e["cls"]
+    w = heapsim.World.__new__(heapsim.World)
+    w.call_forms, w.kinds, w.twin, w.twin_choices = {}, kinds, False, None
+    w.base = e["BeautifulSoup"]("", "html.parser")
+    w.objs, w.lab, w.keep, w.next_plain = {}, {}, [], 1000
+    for i, k in enumerate(kinds):
+        if k in "rt":
+            o = e["BeautifulSoup"]("", "html.parser") if k == "r" else w.base.new_tag(f"t{i}")
+            spec = interesting[i]
+            spec = None if spec is None else tuple(spec)
+            if spec != ("many", PROP_MAIN) and not (spec is not None and spec[0] == "many" and tuple(spec[1]) == PROP_MAIN and len(spec) == 2):
+                o.interesting_string_types = interesting_value(spec)
+            set_exp(o, None if spec is None else (spec[0], tuple(spec[1])))
+        else:
+            o = c[classes[i]](f"{i}.")
+        w.register(o, i)
+    return w
+
+
+def heap_line(mode, kinds, ops, classes, interesting, qtoks):
+    e = E()
+    cls = ".".join(str(cls_code(e["cls"][n])) for n in classes)
+    ints = ";".join("_" if (sp is not None and sp[0] == "many" and tuple(sp[1]) == PROP_MAIN) else interesting_tok(None if sp is None else (sp[0], tuple(sp[1])))
+                    for sp in interesting)
+    return f"c13 heap {mode} {kinds} {';'.join(ops) if ops else '-'} {cls} {ints} {len(qtoks)} {' '.join(qtoks)}"
+
+
+def heap_query(w, label, o, q):
+    """-> (model token, real reply, oracle reply, identity ok); texts canonicalised as label numbers"""
+    e = E()
+    op = q[0]
+    if op == "ST":
+        got = list(o.strings)
+        want = o_all_strings(o, False, ("d",))
+        ident = len(got) == len(want) and all(a is b[0] for a, b in zip(got, want))
+        f = lambda l: "[" + ";".join(lab_tok(x) for x in l) + "]"
+        return f"{label}/ST", f(got), f([x[1] for x in want]), ident
+    if op == "TX":
+        got = o.text
+        want = "".join(str.__str__(x[1]) for x in o_all_strings(o, False, ("d",)))
+        return f"{label}/TX", lab_tok(got), lab_tok(want), True
+    if op == "SP":
+        got, want = o.string, o_string(o)
+        f = lambda x: "none" if x is None else f"{cls_code(type(x))}:{lab_tok(x)}@{w.label(x)}"
+        return f"{label}/SP", f(got), f(want), got is want
+    if op == "A":
+        _, strip, tspec = q
+        kw = {} if tspec[0] == "d" else {"types": e["el"].PageElement.default if tspec[0] == "D" else types_value(tspec)}
+        got = list(o._all_strings(strip, **kw))
+        want = o_all_strings(o, strip, norm_tspec(tspec))
+        ident = len(got) == len(want) and all(a is b[0] for a, b in zip(got, want))
+        f = lambda l: "[" + ";".join(lab_tok(x) for x in l) + "]"
+        return f"{label}/A/0/{types_tok(norm_tspec(tspec))}", f(got), f([x[1] for x in want]), ident
+    _, strip, tspec, sepnums = q
+    sep = "".join(f"{n}." for n in sepnums)
+    kw = {} if tspec[0] == "d" else {"types": e["el"].PageElement.default if tspec[0] == "D" else types_value(tspec)}
+    got = o.get_text(sep, strip, **kw)
+    want = sep.join(str.__str__(x[1]) for x in o_all_strings(o, strip, norm_tspec(tspec)))
+    septok = ",".join(map(str, sepnums)) if sepnums else "-"
+    return f"{label}/G/0/{types_tok(norm_tspec(tspec))}/{septok}", lab_tok(got), lab_tok(want), True
+
+
+def rand_tspec_noiter(r, present):
+    while True:
+        t = rand_tspec(r, present)
+        if t[0] != "iter":
+            return t
+
+
+def heap_queries_for(r, o):
+    NS = E()["el"].NavigableString
+    present = list(dict.fromkeys(type(x) for x in o_strings_below(o))) if is_tag(o) else [type(o)]
+    qs = [("ST",), ("TX",), ("SP",)]
+    for _ in range(2):
+        qs.append(("A", False, rand_tspec_noiter(r, present)))
+    for _ in range(2):
+        qs.append(("G", False, rand_tspec_noiter(r, present), r.choice(([], [900], [900, 901], [32]))))
+    return qs
+
+
+def run_heap_case(ctx, case, stream="heap"):
+    """case = {kinds, classes, interesting, ops (already known to succeed), seed} -> (lines, meta) for the driver"""
+    from . import heapsim
+    w = rebuild_heap_world(case["kinds"], case["classes"], case["interesting"])
+    for op in case["ops"]:
+        st = w.apply(op)
+        if st != "ok":
+            return None
+    return w
+
+
+def heap_start(r):
+    from . import heapsim
+    if r.random() < 0.35:
+        w, kinds, prefix = heapsim.make_world(r, True)
+        classes = ["Comment" if k == "c" else "NavigableString" for k in kinds]
+        interesting = [("many", PROP_MAIN)] * len(kinds)
+        for o in w.objs.values():
+            if is_tag(o):
+                set_exp(o, ("many", PROP_MAIN))
+        return w, kinds, classes, interesting, list(prefix), True
+    w, kinds, classes, interesting = make_heap_world(r)
+    return w, kinds, classes, interesting, [], False
+
+
+def stream_heap(ctx, n_hist):
+    from . import heapsim
+    from collections import Counter
+    e = E()
+    lines, metas = [], []
+    for hi in range(n_hist):
+        r = ctx.rng("heap", hi)
+        state = r.getstate()
+        w, kinds, classes, interesting, prefix, parsed = heap_start(r)
+        ops = list(prefix)
+        stats = Counter()
+        for s_ in range(r.choice((2, 4, 6, 9, 12))):
+            op = heapsim.gen_op(r, w, stats)
+            if op is None:
+                break
+            st = w.apply(op)
+            if st != "ok":
+                # a failed call may have half-happened: start again and replay the successful calls only
+                ctx.count("heap:history-stopped-" + st)
+                import random as _random
+                r2 = _random.Random()
+                r2.setstate(state)
+                w, kinds, classes, interesting, prefix, parsed = heap_start(r2)
+                for o2 in ops[len(prefix):]:
+                    w.apply(o2)
+                break
+            ops.append(op)
+            ctx.count("heap-op:" + op.split(":")[0])
+        ctx.count("heap:" + ("parsed-start" if parsed else "api-start"))
+        case = {"op": "heap", "kinds": kinds, "classes": classes, "interesting": [None if x is None else list(x) for x in interesting],
+                "ops": ops, "parsed": parsed}
+        qtoks, qs = [], []
+        for label, o in w.live():
+            if o.parent is None and not is_tag(o):
+                pass
+            for q in heap_queries_for(r, o):
+                try:
+                    tok, real, want, ident = heap_query(w, label, o, q)
+                except RecursionError:
+                    raise
+                except Exception as ex:
+                    tok, real, want, ident = f"{label}/ST", f"raised {type(ex).__name__}: {ex}", "<no exception>", True
+                ctx.case(None)
+                ctx.count("heap-q:" + q[0])
+                qd = [q[0]] + ([q[1], types_desc(q[2])] if q[0] in ("A", "G") else []) + ([q[3]] if q[0] == "G" else [])
+                if real != want or not ident:
+                    ctx.count("heap:oracle-differs")
+                    if sum(1 for v in ctx.violations if v["stream"] == "heap") < 6:
+                        ctx.violation("after this edit history, text extraction (through the next_element chain) differs from the recursive "
+                                      "evaluator over .contents" if real != want else "the yielded object is not the string node of the tree (identity)",
+                                      case=case | {"receiver": label, "query": qd}, expected=want, observed=real, stream="heap")
+                qtoks.append(tok)
+                qs.append((label, qd, real, want))
+        if any(is_tag(o) and o.parent is not None and o.contents for _, o in w.live()):
+            ctx.nontrivial.add(5_000_000 + hi)
+        lines.append((kinds, ops, classes, interesting, qtoks))
+        metas.append((case, qs))
+    drv = Driver()
+    reported = 0
+    for mode in ("heap", "tree"):
+        rep = drv.ask([heap_line(mode, *l) for l in lines])
+        for (case, qs), ans in zip(metas, rep):
+            parts = ans.split(" | ") if qs else []
+            if len(parts) != len(qs):
+                parts = [ans] * len(qs)
+            for (label, qd, real, want), a in zip(qs, parts):
+                if mode == "tree" and "@" in real:
+                    real = real.split("@")[0]
+                if a != real:
+                    ctx.corr_disagreements += 1
+                    ctx.count(f"heap:model-{mode}-disagrees")
+                    if reported < 6:
+                        reported += 1
+                        ctx.violation(f"Lean {'pointer-heap mirror' if mode == 'heap' else 'tree mirror on toNode'} and implementation disagree",
+                                      case=case | {"receiver": label, "query": qd}, observed=real, expected=want, model=a,
+                                      stream="heap-correspondence", no_failing_input=(real == want))
+    ctx.count("heap:histories", n_hist)
 
 
 def stream_corpus(ctx, batch):
@@ -1135,20 +1727,25 @@ def run(ctx: Ctx):
     warnings.simplefilter("ignore")
     ctx.rule = ("every element and every string of every tree is a receiver; per receiver: .strings, .stripped_strings, .text, .string, "
                 "4 random get_text(sep, strip, types) and 2 _all_strings(strip, types); a receiver counts as non-trivial when some but "
-                "not all strings beneath it are selected by one of its queries, or .string is found through at least one element")
+                "not all strings beneath it are selected by one of its queries, or .string is found through at least one element; a heap "
+                "history counts when some attached element has children after it")
     ctx.assumptions = [
-        "the next_element chain below an element is its pre-order (C01/C02); edits are single-argument API calls",
         "types=() is the default sentinel itself (CPython empty-tuple singleton) and is read as 'default'",
-        "string receivers: an empty result yields nothing even without strip (modelled quirk of NavigableString._all_strings)",
+        "string receivers: an empty result yields nothing even without strip (modelled behaviour of NavigableString._all_strings)",
+        "a one-shot iterator as types: today's consuming behaviour is modelled; being honoured like a tuple is accepted too",
         "element_classes overrides are outside the quantifier; only string_container() itself is compared with the model under them",
         "str.strip() = trimming by str.isspace (checked for every code point when the table is generated)",
+        "heap stream: string class and interesting_string_types travel beside the heap as a labelling (no editing call writes them)",
     ]
     E()
     batch = Batch(ctx)
     stream_corpus(ctx, batch)
     stream_strip(ctx)
     stream_string_container(ctx)
+    stream_config(ctx)
+    stream_nesting(ctx, ctx.n(400, 4000))
     stream_positions(ctx, batch)
+    stream_heap(ctx, ctx.n(500, 5000))
     stream_malformed(ctx, batch, ctx.n(600, 6000))
     stream_random(ctx, batch, ctx.n(1500, 15000))
     batch.flush()
@@ -1206,6 +1803,50 @@ def replay(path):
         print("implementation:", got)
         print("property demands:", want)
         return 0 if got == want else 1
+    if c.get("op") == "nesting":
+        e = E()
+        kwargs, sc = config_containers(c["config"])
+        soup = e["BeautifulSoup"](c["markup"], "html.parser", **kwargs)
+        strs = [(type(s).__name__, str(s)) for s in all_nodes(soup) if isinstance(s, e["el"].NavigableString)]
+        print("markup:", c["markup"], "config:", c["config"])
+        print("implementation:", strs)
+        print("property demands class:", v.get("expected"))
+        return 0 if strs and strs[-1][0] == v.get("expected") else 1
+    if c.get("op") == "copy-config":
+        soup, sc = build(c["recipe"])
+        bad = copied_soup_config_failures(soup, sc)
+        for nm, got, want in bad:
+            print(f"copy.new_tag({nm!r}).interesting_string_types: implementation {got}, property demands {want}")
+        return 1 if bad else 0
+    if c.get("op") in ("config", "interesting", "string_container"):
+        # these streams are deterministic and order-dependent (state leaking between objects shows only in sequence): rerun them
+        from .common import Ctx as _Ctx
+        c2 = _Ctx("C13", "quick", 0)
+        stream_string_container(c2)
+        stream_config(c2)
+        hits = [x for x in c2.violations if not x.get("no_failing_input_found")]
+        same = [x for x in hits if {k: x["case"].get(k) for k in c if k != "line"} == {k: c.get(k) for k in c if k != "line"}]
+        for x in (same or hits)[:3]:
+            print(json.dumps(x["case"]), "| implementation:", x["observed"], "| property demands:", x["expected"])
+        print(f"{len(hits)} failing case(s) in the configuration streams; the recorded case {'fails again' if same else 'does not fail in this run'}")
+        return 1 if hits else 0
+    if c.get("op") == "heap":
+        w = run_heap_case(None, c)
+        if w is None:
+            print("the recorded history no longer runs to the end on this tree")
+            return 1
+        o = w.objs.get(c["receiver"])
+        if o is None:
+            print("receiver", c["receiver"], "does not exist after the history")
+            return 1
+        qd = c["query"]
+        q = (qd[0],) if len(qd) == 1 else (("A", qd[1], types_from_desc(qd[2])) if qd[0] == "A" else ("G", qd[1], types_from_desc(qd[2]), qd[3]))
+        tok, real, want, ident = heap_query(w, c["receiver"], o, q)
+        print("history:", c["kinds"], ";".join(c["ops"]), "classes:", c["classes"])
+        print("receiver:", c["receiver"], "query:", qd)
+        print("implementation:", real)
+        print("property demands:", want, "" if ident else "(and the very string objects of the tree)")
+        return 0 if (real == want and ident) else 1
     if c.get("op") == "ancestor-rule":
         soup, sc = build(c["recipe"] | {"ops": []})
         bad = ancestor_rule_failures(soup, sc)
